@@ -191,12 +191,15 @@ func (w *Worker) visibleSig(s *State, f *Frame) (sig OpSig, visible bool, enable
 		}
 		return OpSig{kind: "write", cell: "rw/" + mk}, true, en
 	case strings.HasSuffix(n, "/zzverif/verifrt.Yield"):
-		return OpSig{kind: "write", cell: "yield"}, true, true
+		return OpSig{kind: "yield", cell: "yield"}, true, true
 	}
 	return OpSig{}, false, true
 }
 
 func independent(a, b OpSig) bool {
+	if a.kind == "yield" || b.kind == "yield" {
+		return true // a yield changes nothing another thread can observe
+	}
 	if a.kind == "clock" || b.kind == "clock" {
 		return a.kind != b.kind
 	}
